@@ -37,9 +37,15 @@
 #include "socket_async_impl.h"
 #include "socket_buffered_impl.h"
 #include "todo_impl.h"
+#ifdef SOCKPUPPET_WITH_TLS
+#include "socket_tls_impl.h"
+#endif
 #undef private
 
 #include "vos.h"
+#ifdef SOCKPUPPET_WITH_TLS
+#include "fakessl.h"
+#endif
 
 using namespace sockpuppet;
 using vos::S;
@@ -48,7 +54,7 @@ namespace {
 
 struct Op { int code; std::vector<long long> a; long long arg(size_t i) const { return i < a.size() ? a[i] : 0; } };
 struct Case { std::string id; std::vector<Op> ops; std::deque<vos::Ev> script; std::map<long long, long long> faults;
-              std::vector<std::pair<long long, long long>> rules; };
+              std::vector<std::pair<long long, long long>> rules; std::deque<std::vector<long long>> engine; };
 using V = std::vector<long long>;
 
 constexpr long long EPOCH_NS = 1000000000000ll;   // see vos.cpp clock_gettime
@@ -73,6 +79,7 @@ V exn_code(std::exception const &e)
     else if(what == "uncalled sendto") site = 5;
     else if(what == "invalid handler") site = 6;
     else if(what == "unexpected receive buffer size") site = 7;
+    else if(what == "unexpected recceive") site = 8;
     else if(what == "returned invalid buffer") site = 20;
     else if(what == "scenario") site = 99;
     return {4, site};
@@ -98,6 +105,7 @@ struct Sock {
   std::unique_ptr<AcceptorAsync> acca;
   int fd = -1;
   uint64_t user_in = 0;     // bytes / datagrams the user has obtained so far
+  std::deque<std::string> tls_sent;   // TLS: "a failed send must be retried with the same data" — the library remembers a view of it
   long long h1 = 0, h2 = 0;
   bool alive() const { return tcp || udp || acc || tcpb || udpb || tcpa || udpa || acca; }
   BufferPool *rxpool() const {
@@ -383,6 +391,30 @@ void run_simple_op0(Op const &op)
       return {fd, a0};
     });
     break;
+#ifdef SOCKPUPPET_WITH_TLS
+  case 80: // TLS_NEW s
+    fresh_key(a0);
+    api(opc, [&]() -> V {
+      Sock s; s.kind = 1;
+      s.tcp = std::make_unique<SocketTcp>(sym_addr(100 + a0), "cert.pem", "key.pem");
+      s.fd = last_fd_created();
+      long long fd = s.fd;
+      add_sock(a0, std::move(s));
+      return {fd, a0};
+    });
+    break;
+  case 81: // ACC_TLS_NEW s
+    fresh_key(a0);
+    api(opc, [&]() -> V {
+      Sock s; s.kind = 3;
+      s.acc = std::make_unique<Acceptor>(sym_addr(300 + a0), "cert.pem", "key.pem");
+      s.fd = last_fd_created();
+      long long fd = s.fd;
+      add_sock(a0, std::move(s));
+      return {fd, a0};
+    });
+    break;
+#endif
   case 21: // UDP_NEW s
     fresh_key(a0);
     api(opc, [&]() -> V {
@@ -408,8 +440,18 @@ void run_simple_op0(Op const &op)
   case 23: { // TCP_SEND s size timeout
     auto &s = need_sock(a0, 1);
     if(!s.tcp && !s.tcpb) bad_case(103);
-    std::string data(static_cast<size_t>(a1), '\0');
-    vos::fill(2ull * s.fd, S.out_pos[s.fd], data.data(), data.size());
+    bool const tls = S.tls_fds.count(s.fd) != 0;
+#ifdef SOCKPUPPET_WITH_TLS
+    if(tls) {
+      // usage rule of TLS sockets: a send that did not go through is retried with the same data
+      SocketImpl *impl = s.tcp ? s.tcp->impl.get() : s.tcpb->impl->sock.get();
+      if(auto *t = dynamic_cast<SocketTlsImpl *>(impl)) if(!t->pendingSend.empty()) a1 = static_cast<long long>(t->pendingSend.size());
+    }
+#endif
+    s.tls_sent.emplace_back(static_cast<size_t>(a1), '\0');
+    while(s.tls_sent.size() > (tls ? 2u : 1u)) s.tls_sent.pop_front();
+    std::string &data = s.tls_sent.back();
+    vos::fill(2ull * s.fd, tls ? S.plain_out[s.fd] : S.out_pos[s.fd], data.data(), data.size());
     api(opc, [&]() -> V {
       size_t n = s.tcp ? s.tcp->Send(data.data(), data.size(), Duration(a2))
                        : s.tcpb->Send(data.data(), data.size(), Duration(a2));
@@ -730,6 +772,9 @@ void run_case(Case const &c)
   S.script = c.script;
   S.faults = c.faults;
   S.rules = c.rules;
+#ifdef SOCKPUPPET_WITH_TLS
+  fakessl::script = c.engine;
+#endif
   // blocks
   std::vector<Op> top;
   std::optional<long long> cur;
@@ -792,7 +837,8 @@ int main()
     if(!(is >> tag) || tag == "#") continue;
     if(tag == "C") { cur = Case(); std::getline(is, cur.id); if(!cur.id.empty() && cur.id[0] == ' ') cur.id.erase(0, 1); }
     else if(tag == "O") { Op o; is >> o.code; long long v; while(is >> v) o.a.push_back(v); cur.ops.push_back(o); }
-    else if(tag == "E") { vos::Ev e; is >> e.code; long long v; while(is >> v) e.a.push_back(v); cur.script.push_back(e); }
+    else if(tag == "E") { vos::Ev e; is >> e.code; long long v; while(is >> v) e.a.push_back(v);
+                          if(e.code == 8) cur.engine.push_back(e.a); else cur.script.push_back(e); }
     else if(tag == "F") { long long i, e; is >> i >> e; if(i < 0) cur.rules.emplace_back(i, e); else if(!cur.faults.count(i)) cur.faults[i] = e; }
     else if(tag == "X") run_isolated(cur);
   }
